@@ -354,6 +354,11 @@ def run(ctx):
             try:
                 it, _, _ = CL.classify(F, st, domain=U32)
                 same = rt is not None and callshape(it) == callshape(s(rt))
+                if not same and rt is not None:
+                    # section_type() may read the raw value by calling section_type_raw(self) instead of repeating its body
+                    ci = callshape(s(it))
+                    same = ci[0] == "call" and ci[1] == raw["key"] and ci[2] in ((("arg", 1),), (s(("arg", 1, raw["body"]["locals"][1]["ty"])),)) or \
+                        (ci[0] == "call" and ci[1] == raw["key"] and len(ci[2]) == 1 and G.N(ci[2][0]) == ("arg", 1))
                 ctx.check(same, "TERMS", "section_type:input",
                           "section_type() classifies the same raw value that section_type_raw() returns", site(st),
                           how="both are %s" % G.show(it), why="%s vs %s" % (G.show(it), G.show(rt)))
